@@ -14,7 +14,7 @@
 From Coq Require Import ZArith List PrimFloat.
 From DSW Require Import Py Kmer Graph Spec GraphSpec CapacitySpec.
 From DSW Require Capacity.
-From DSW.Proofs Require Import CapacityProofs CapacityFloatProofs CapacityTermProofs.
+From DSW.Proofs Require Import CapacityProofs CapacityFloatProofs CapacityTermProofs CapacityRefuted.
 Import ListNotations.
 Open Scope Z_scope.
 
@@ -53,6 +53,16 @@ Theorem C17_result_counts : forall acc tol maxit starts res recs,
   length recs = length starts /\ (length starts <= length res <= 2 * length starts)%nat.
 Proof. exact approximate_capacity_results. Qed.
 
+(* REFUTED for the random start (finding F12): on f12_acc -- one aperiodic strongly connected cyclic part, spectral gap 0.81 -- with
+   the three start vectors NumPy draws after seed 1472, two of the three repeats report the estimate 1.0 (so the median capacity
+   is log2 1 = 0) while the kernel-checked lower certificate (C17_lower_certificate) bounds the growth rate below by p/q > 1.29 *)
+Theorem C17_random_start_refuted :
+  shaped f12_acc /\ Forall (Forall unit_float) f12_starts /\
+  (exists r3 recs, Capacity.approximate_capacity f12_acc f12_tol 500 f12_starts = Some (Some ([1; 1; r3]%float, recs))
+                   /\ PrimFloat.ltb 1 r3 = true) /\
+  cert_lower f12_acc f12_S f12_x f12_p f12_q = true /\ 129 * f12_q < 100 * f12_p.
+Proof. exact capacity_random_start_refuted. Qed.
+
 Print Assumptions C17_le_four.
 Print Assumptions C17_arcless.
 Print Assumptions C17_regular.
@@ -60,3 +70,4 @@ Print Assumptions C17_upper_certificate.
 Print Assumptions C17_lower_certificate.
 Print Assumptions C17_terminates.
 Print Assumptions C17_result_counts.
+Print Assumptions C17_random_start_refuted.
